@@ -165,6 +165,26 @@ var depImpl = map[string]core.Adapter{
 		}
 		return "ok"
 	},
+	// law: a large well-formed field is accepted with all its relations, and so is its rendering
+	"law-depbig": func(a []string) string {
+		want, _ := strconv.Atoi(a[1])
+		d, err := dependency.Parse(core.MustUnHex(a[0]))
+		if err != nil {
+			return fmt.Sprintf("FAIL a well-formed field of %d bytes is rejected: %v", len(core.MustUnHex(a[0])), err)
+		}
+		if len(d.Relations) != want {
+			return fmt.Sprintf("FAIL %d relations written, %d parsed", want, len(d.Relations))
+		}
+		r := d.String()
+		e, err := dependency.Parse(r)
+		if err != nil {
+			return fmt.Sprintf("FAIL the rendering (%d bytes) of an accepted field (%d bytes) is rejected: %v", len(r), len(core.MustUnHex(a[0])), err)
+		}
+		if len(e.Relations) != want {
+			return fmt.Sprintf("FAIL the rendering parses to %d relations, the field to %d", len(e.Relations), want)
+		}
+		return "ok"
+	},
 	"archparse": func(a []string) string {
 		x, err := dependency.ParseArch(core.MustUnHex(a[0]))
 		if err != nil {
@@ -280,8 +300,10 @@ var depImpl = map[string]core.Adapter{
 
 func depReadable(op string, a []string) string {
 	switch op {
+	case "law-depbig":
+		return fmt.Sprintf("law-depbig(%d bytes: %q...)", len(core.MustUnHex(a[0])), clipStr(core.MustUnHex(a[0]), 80))
 	case "depparse", "deprt", "law-deprt", "archparse", "archrt", "law-archrt", "archlist":
-		return fmt.Sprintf("%s(%q)", op, core.MustUnHex(a[0]))
+		return fmt.Sprintf("%s(%q)", op, clipStr(core.MustUnHex(a[0]), 2000))
 	case "law-depast":
 		return fmt.Sprintf("Parse(%q) must denote %s", core.MustUnHex(a[0]), core.MustUnHex(a[1]))
 	case "possis":
@@ -697,15 +719,18 @@ func streamDepparse(g *core.G) {
 			g.Emit("law-depast", core.Hex(s), core.Hex(astDump(ast)))
 		}
 	}
-	// a field of more than a MiB, compactly written (its canonical rendering is a quarter longer)
-	{
+	// large fields, compactly written (the canonical rendering is a fifth longer): accepted with
+	// every relation, and the rendering is accepted again (implementation alone: the executable
+	// model is quadratic at this size)
+	for _, size := range []int{300000, 900000, 1100000, 2200000} {
 		var b strings.Builder
-		for b.Len() < 1100000 {
+		rels := 0
+		for b.Len() < size {
 			b.WriteString(r.Pick([]string{"liba,", "libb|libc(>=1),", "x[amd64],", "y<cross>,"}))
+			rels++
 		}
 		b.WriteString("end")
-		// (implementation alone: the executable model is quadratic on a field of this size)
-		g.Emit("law-deprt", core.Hex(b.String()))
+		g.Emit("law-depbig", core.Hex(b.String()), strconv.Itoa(rels+1))
 	}
 	n := g.N(3000, 150000)
 	for i := 0; i < n; i++ {
